@@ -15,7 +15,7 @@ SPEC = {
     "C04": [("MD.Props.C04_HES", None), ("MD.Props.C04_HQS", None)],
     "C05": [("MD.Props.C05", None)],
     "C06": [("MD.Props.C06", None), ("MD.Props.C06b", None)],
-    "C07": [("MD.Props.C07", None)],
+    "C07": [("MD.Props.C07", None), ("MD.Props.C07b", None)],
     "C08": [("MD.Props.C08", None)],
     "C09": [("MD.Props.C09", None)],
     "C10": [("MD.Props.C10", None), ("MD.Props.C10b", None)],
